@@ -62,8 +62,8 @@ CHECKS = {
          "DESIGN.md §5 C11"),
  "C12": ("exploration",
          "online step monitors (before/after contents, no carried model) + reference folds over exhaustive short and seeded random event sequences; wall clock injected through an LD_PRELOAD shim for the clock-driven node",
-         "Drives TimeWindow (add_event, record), WindowManager and WindowedStream in tumbling mode, and StreamAlphaNode under a virtual clock with every event sequence up to a stated length over a small timestamp alphabet around the window boundaries (x durations 1-10 ms x caps 1, 2, 100) and seeded random sequences up to length 12 (in order, reversed, shuffled, late, duplicate, boundary instants; numeric, string, bool, missing payloads). After every call it checks acceptance / aligned placement / no stale retained event / no in-span event lost except oldest-first cap drops on the contents observed before and after, and count, sum, average, min, max through every aggregation API against a fold over exactly the window's events(). Held = no step of any explored sequence broke a clause, apart from the listed known findings.",
-         "Exploration, not proof: exhaustive only to length 4-8 over 6-8 timestamps. Trusts metadata.sequence as identity. Cap drops accepted under arrival- or timestamp-order readings and either order of cap and eviction. Future timestamps within d of now are not judged for the sliding node. Session windows, WindowedStream sliding mode, NaN payloads and sub-ms durations are outside the statement and not driven. Needs the clock shim, else the node part is INCONCLUSIVE.",
+         "Drives TimeWindow (add_event, record), WindowManager and WindowedStream in tumbling mode, and StreamAlphaNode under a virtual clock with every event sequence up to a stated length over a small timestamp alphabet around the window boundaries (x durations 1-10 ms x caps 1, 2, 100) and seeded random sequences up to length 12, one in 8 of 21-64 events (in order, reversed, shuffled, late, duplicate, boundary instants; numeric, string, bool, missing, NaN and infinite payloads; durations and instants up to the ends of the u64 range). After every call it checks acceptance / aligned placement / no stale retained event / no in-span event lost except oldest-first cap drops on the contents observed before and after, and count, sum, average, min, max through every aggregation API against a fold over exactly the window's events(). Held = no step of any explored sequence broke a clause, apart from the listed known findings.",
+         "Exploration, not proof: exhaustive only to length 4-8 over 6-8 timestamps. Trusts metadata.sequence as identity. Cap drops accepted under arrival- or timestamp-order readings and either order of cap and eviction. Future timestamps within d of now are not judged for the sliding node. Min/max are judged under the reading that a NaN is no candidate while any reading is a number (IEEE minNum/maxNum). Session windows, WindowedStream sliding mode and sub-ms durations are outside the statement and not driven. Needs the clock shim, else the node part is INCONCLUSIVE.",
          "DESIGN.md §5 C12"),
  "C13": ("exploration",
          "online step monitor (invariant + conservation) over exhaustive and random event sequences",
